@@ -16,6 +16,7 @@ pub mod p05_p16_dirty;
 pub mod p06_atomicity;
 pub mod p07_nocrash;
 pub mod p09_bitmap;
+pub mod p10_maps;
 pub mod p19_address;
 pub mod p20_endian;
 
@@ -31,6 +32,7 @@ pub fn properties() -> Vec<Property> {
         p06_atomicity::property(),
         p07_nocrash::property(),
         p09_bitmap::property(),
+        p10_maps::property(),
         p05_p16_dirty::property_c16(),
         p19_address::property(),
         p20_endian::property(),
